@@ -71,6 +71,7 @@ _RAW_TEXTS = ['', ' ', '\n', 'null', 'nul', '{', '}', '[', ']', '[]', '{}', '[[]
               '[{"jsonrpc":"2.0","method":"noargs","id":1},]', '{"jsonrpc":"2.0","method":"noargs","id":1,}', '[1 2]', '{"a" 1}', 'nulll',
               '"\t"', '\r\n{}\r\n', '{"jsonrpc": "2.0", "method": "echo", "params": [1], "id": 1e2}',
               # unpaired surrogates as characters of the text itself (a str can carry them; json.loads accepts them)
+              '\x0c{"jsonrpc":"2.0","method":"noargs","id":1}\x0c', '\xa0[{"jsonrpc":"2.0","method":"noargs","id":1}]', '{"jsonrpc":"2.0","method":"noargs","id":1}\u2028',
               '{"jsonrpc":"2.0","method":"echo","params":["\ud800"],"id":1}', '{"jsonrpc":"2.0","method":"\udc00","id":"\udfff"}',
               '[{"jsonrpc":"2.0","method":"noargs","id":"\ud83d"}]', '\ud800', '"\udc00"', '{"jsonrpc":"2.0","method":"ret","id":1}\udc80']
 
@@ -108,7 +109,10 @@ class DocGen:
         self.s_bool = st.booleans()
         self.s_kind = st.sampled_from(kinds or (['single'] * 4 + ['batch'] * 5 + ['value', 'deep', 'huge', 'mangled', 'mangled', 'raw']))
         self.s_indent = st.sampled_from([0, 0, 1])
-        self.s_pad = st.sampled_from(['', '', ' ', '\n\t '])
+        # JSON whitespace is space, tab, LF, CR only; the other blanks python's str.strip() / str.isspace() know are NOT
+        _json_ws = st.sampled_from(['', '', '', ' ', '\n\t ', '\r\n'])
+        self.s_pad = st.one_of(_json_ws, _json_ws, _json_ws, _json_ws, _json_ws, _json_ws, _json_ws,
+                               st.sampled_from(['\x0c', '\xa0', '\u2028', '\x0b', '\x1c', '\x85', '\u3000', '\ufeff']))
         self.s_raw = st.one_of(st.sampled_from(_RAW_TEXTS), st.sampled_from(_RAW_TEXTS), st.text(max_size=20))
         self.s_anyval = st.one_of(jg.cheap_value(), jg.cheap_value(), jg.json_value(6))
         self.s_depth = st.sampled_from([8, 31, 32, 48, 62])
